@@ -2,8 +2,9 @@ import XpmVerif.Proofs.FileTokens
 /-! C09, file-based part (model M2', `Model/FileTokens.lean`): whatever way a job ends, the amount it
     held returns to the token shared by several scheduler processes, an idle token shows its full
     capacity in every process, and no release is lost for a process whose observer runs.
-    The two defects found on the current source are parameters of the model (`cfg.tolerant`,
-    `cfg.notifyMissing`, read off the real code by the check): the theorems that need a repair say so. -/
+    The two defects of the current source that change the token-level behaviour are parameters of the
+    model (`cfg.tolerant`, `cfg.notifyMissing`, read off the real code by the check): the theorems that
+    need a repair say so. -/
 namespace XpmVerif.C09Files
 open XpmVerif.FileTokens
 
@@ -53,7 +54,7 @@ theorem leftover_file_removable (s : St) (p : Proc) (f : Name) (hi : s.ipc = non
   simp [enabled, hi, hd, hg]
 
 /-- a release whose file was already reclaimed still leaves the releasing process with the exact count;
-    whether it notifies is the decision point of the lost-notification finding. -/
+    whether it notifies is the decision point of the lost-notification finding (F24). -/
 theorem release_missing_recounts (cfg : Cfg) (s : St) (p : Proc) (f : Name) (hf : f ∉ names s.disk) :
     let s' := (apply cfg s (.release p f)).1
     (s'.procs p).avail = (cfg.total : Int) - (diskSum cfg s' : Nat) ∧ s'.disk = s.disk ∧
@@ -173,16 +174,12 @@ theorem observer_survives (cfg : Cfg) (s : St) (e : Ev) (p : Proc) (ht : cfg.tol
     · subst hq; simp [fresh]
     · simpa [upd_other _ _ _ _ hq] using ha
 
-/-! ### witnesses: the hypotheses are satisfiable; what fails on the current source -/
+/-! ### witnesses: the hypotheses are satisfiable; what fails on the current source
+    (`cfgNow`, `cfgFixed`, `evsF6`, `evsLost`, `evsOk`, `notifiesOf` are defined in `Proofs/FileTokens.lean`) -/
 
-def cfgNow : Cfg := { total := 1, req := fun _ => 1, tolerant := false, notifyMissing := false }
-def cfgFixed : Cfg := { total := 1, req := fun _ => 1, tolerant := true, notifyMissing := true }
-
-/-- F6: process 1 dispatches the `created` event of a file that process 0 has opened but not yet
-    written; its observer dies; it later caches the file through a recount; the foreign release is
-    never seen: the directory is empty, nothing is pending, and process 1 shows 0 of 1 for ever. -/
-def evsF6 : List Ev := [.acquireBegin 0 7, .fsEvent 1, .acquireEnd 0, .acquireBegin 1 8, .jobGone 7, .release 0 7]
-
+/-- F6 on the current source (`tolerant = false`): a reachable state in which the directory is empty,
+    nothing is pending, the process is not dead, and yet it shows 0 of 1 with a stale cache entry for
+    ever — `idle_full` cannot be extended to a process whose observer has died. -/
 theorem observer_can_die :
     let s := run cfgNow (init cfgNow) evsF6
     Reachable cfgNow s ∧ s.disk = [] ∧ (s.procs 1).alive = false ∧ (s.procs 1).dropped = false ∧
@@ -197,21 +194,8 @@ example : ((run cfgFixed (init cfgFixed) evsF6).procs 1).alive = true ∧
 example : let s := run cfgFixed (init cfgFixed) (evsF6 ++ [.fsEvent 1, .fsEvent 1, .fsEvent 1])
     s.disk = [] ∧ (s.procs 1).cache = [] ∧ (s.procs 1).avail = 1 := by decide +kernel
 
-/-- lost notification: process 1 reclaims the file of the finished job 7 before its owner releases it;
-    the owner's release finds nothing and (current source) does not notify, and its own deletion event,
-    dispatched afterwards, finds nothing in the cache either: no step of this run notifies process 0. -/
-def evsLost : List Ev := [.acquireBegin 0 7, .acquireEnd 0, .fsEvent 1, .jobGone 7, .reclaim 1 7, .release 0 7,
-                          .fsEvent 0, .fsEvent 0, .fsEvent 0]
-
-def notifiesOf (cfg : Cfg) (p : Proc) : St → List Ev → List Bool
-  | _, [] => []
-  | s, e :: r =>
-    let x := apply cfg s e
-    (match e with
-     | .release q _ => q == p && x.2.notify
-     | .fsEvent q => q == p && x.2.notify
-     | _ => false) :: notifiesOf cfg p x.1 r
-
+/-- F24 on the current source (`notifyMissing = false`): an enabled run that ends with an empty directory
+    and an empty queue in which no step ever called `aio_notify()` in the releasing process. -/
 theorem release_after_reclaim_is_silent :
     allEnabled cfgNow (init cfgNow) evsLost = true ∧ (run cfgNow (init cfgNow) evsLost).disk = [] ∧
     ((run cfgNow (init cfgNow) evsLost).procs 0).pending = [] ∧
@@ -221,8 +205,7 @@ theorem release_after_reclaim_is_silent :
 example : (notifiesOf cfgFixed 0 (init cfgFixed) evsLost).any (· == true) = true := by decide +kernel
 
 /-- non-vacuity of `release_restores` / `no_lost_release` / `idle_full`: a reachable state where process 1 has
-    cached a foreign file that is released, then the idle state. -/
-def evsOk : List Ev := [.acquireBegin 0 7, .acquireEnd 0, .fsEvent 1, .fsEvent 1, .jobGone 7, .release 0 7]
+    cached a foreign file that is released, then the idle state (which shows 2 of 1: observation F23). -/
 example : let s := run cfgFixed (init cfgFixed) evsOk
     Reachable cfgFixed s ∧ 7 ∈ (s.procs 1).cache ∧ 7 ∉ names s.disk ∧ FsEv.deleted 7 ∈ (s.procs 1).pending :=
   ⟨reachable_run cfgFixed evsOk _ .init (by decide +kernel), by decide +kernel⟩
